@@ -90,7 +90,7 @@ func arbitraryBytes(rng *rand.Rand, max int) string {
 		case 0:
 			b[i] = byte(rng.Intn(256))
 		case 1:
-			b[i] = "\"'<>&\x00\r\n\t =/`"[rng.Intn(14)]
+			b[i] = "\"'<>&\x00\r\n\t =/`"[rng.Intn(13)]
 		default:
 			b[i] = byte(0x20 + rng.Intn(0x5f))
 		}
@@ -188,7 +188,9 @@ type ssoSend struct {
 	Extra    []string // extra key/value pairs
 	Method   string
 
-	AfterSign func(m *spsim.RedirectMsg) // edits of the signed redirect message before it is sent
+	SentValue    string                     // the SAMLRequest parameter value as sent
+	SentEncoding string                     // the SAMLEncoding parameter as sent
+	AfterSign    func(m *spsim.RedirectMsg) // edits of the signed redirect message before it is sent
 
 	rawSAMLRequest string // when set (or forceRaw): the parameter value sent verbatim instead of the encoded XML
 	forceRaw       bool
@@ -205,6 +207,7 @@ func (s *ssoSend) do(e *env.Env) (*env.Call, *spsim.RedirectMsg) {
 		if s.rawSAMLRequest != "" || s.forceRaw {
 			val = s.rawSAMLRequest
 		}
+		s.SentValue, s.SentEncoding = val, s.Encoding
 		kv := []string{"SAMLRequest", val}
 		if s.HasRelay {
 			kv = append(kv, "RelayState", s.Relay)
@@ -234,6 +237,7 @@ func (s *ssoSend) do(e *env.Env) (*env.Call, *spsim.RedirectMsg) {
 	if s.AfterSign != nil {
 		s.AfterSign(m)
 	}
+	s.SentValue, s.SentEncoding = m.Value, m.Encoding
 	q := m.RawQuery()
 	for i := 0; i+1 < len(s.Extra); i += 2 {
 		q += "&" + url.QueryEscape(s.Extra[i]) + "=" + url.QueryEscape(s.Extra[i+1])
